@@ -175,6 +175,72 @@ int main ()
     Vector<4,double> mean = smp.get_mean(); Stokes<double> mm = m->get_mean(); long double e4 = 0; for (int i=0;i<4;i++) e4 = std::max (e4, fabsl ((long double)mean[i] - mm[i]));
     O.puti (finite ? 1 : 0); O.puti (cs->fields == n ? 1 : 0); O.put ((double) e1); O.put ((double) e2); O.put ((double) e3); O.put ((double) e4); };
 
+
+  // ------------------------------------------------------------ C07: amplitude modulation
+  // a sequence of modulation factors from scripted deviates
+  OP("mod.seq") { Stokes<double> S (1,0,0,0); epsic::modulated_mode* mod = 0; make_mode (A, S, &g_bm, &mod); unsigned m = A.n();
+    while (!A.done()) g_normal.push_back ((float) A.d());
+    for (unsigned i=0;i<m;i++) O.put (mod->modulation()); O.puti (g_normal_calls); };
+  // reported statistics of a modulated mode
+  OP("mod.stats") { Stokes<double> S = A.stokes(); epsic::modulated_mode* mod = 0; epsic::mode* top = make_mode (A, S, &g_bm, &mod); unsigned L = A.n();
+    O.put (mod->get_mod_mean()); O.put (mod->get_mod_variance()); O.put (Vector<4,double>(top->get_mean())); O.put (top->get_covariance());
+    for (unsigned l=0;l<=L;l++) O.put (top->get_crosscovariance(l)); };
+  // modulating a field multiplies its Stokes parameters by the factor
+  OP("mod.transform") { double m = A.d(); std::complex<double> x (A.d(), 0); x = std::complex<double>(x.real(), A.d()); double yr = A.d(); double yi = A.d();
+    Spinor<double> e (x, std::complex<double>(yr, yi)); epsic::mode base; scripted_mod sm (&base, 1, 0); sm.values.push_back (m);
+    Spinor<double> t = sm.transform (e); O.put (t);
+    Vector<4,double> s0, s1; compute_stokes (s0, e); compute_stokes (s1, t); double worst = 0;
+    for (int i=0;i<4;i++) worst = std::max (worst, std::fabs (s1[i] - m*s0[i]) / std::max (std::fabs (m*s0[0]), 1e-300)); O.put (worst); };
+  // oracle (linear filter): exact moments of the boxcar-smoothed factors for iid draws with the declared mean/variance,
+  // from the impulse response of the real filter, against what the model reports.  Output: max |error| of mean, variance, lag terms
+  OP("o.c07.boxcar") { unsigned w = A.n(); double mu = A.d(); double var = A.d(); unsigned steps = 3*w + 5; unsigned draws = w - 1 + steps;
+    std::vector< std::vector<double> > coef (steps, std::vector<double>(draws, 0.0));
+    for (unsigned p=0;p<draws;p++) { epsic::mode base; scripted_mod* sm = new scripted_mod (&base, mu, var);
+      for (unsigned q=0;q<draws;q++) sm->values.push_back (q == p ? 1.0 : 0.0);
+      epsic::boxcar_modulated_mode bx (sm, w); for (unsigned k=0;k<steps;k++) coef[k][p] = bx.modulation(); }
+    epsic::mode base; base.set_Stokes (Stokes<double>(1,0,0,0)); scripted_mod* sm = new scripted_mod (&base, mu, var); epsic::boxcar_modulated_mode bx (sm, w);
+    double e_mean = 0, e_var = 0, e_lag = 0;
+    for (unsigned k=0;k<steps;k++) { double sc = 0, sq = 0; for (unsigned p=0;p<draws;p++) { sc += coef[k][p]; sq += coef[k][p]*coef[k][p]; }
+      e_mean = std::max (e_mean, std::fabs (mu*sc - bx.get_mod_mean())); e_var = std::max (e_var, std::fabs (var*sq - bx.get_mod_variance()));
+      for (unsigned l=1; l<=w+1 && k+l<steps; l++) { double cr = 0; for (unsigned p=0;p<draws;p++) cr += coef[k][p]*coef[k+l][p];
+        double reported = bx.get_crosscovariance(l)[0][0];   // outer(S,S)[0][0] = 1 for S = (1,0,0,0)
+        e_lag = std::max (e_lag, std::fabs (var*cr - reported)); } }
+    O.put (e_mean); O.put (e_var); O.put (e_lag); };
+  // oracle (sample and hold): exact same-block fractions over one full phase cycle against the reported lag correlations,
+  // within a sample (lag < n) -- output: max |error| over lags, then the lag-0 term
+  OP("o.c07.square") { unsigned w = A.n(); unsigned n = A.n(); epsic::mode base; base.set_Stokes (Stokes<double>(1,0,0,0));
+    scripted_mod* sm = new scripted_mod (&base, 1.0, 1.0); epsic::square_modulated_mode sq (sm, w, n);
+    // block index of every instance over one phase cycle: instance t belongs to block t / w ; samples are [s n, (s+1) n)
+    unsigned long cycle = (unsigned long) w * n; double worst = 0;
+    for (unsigned l=0; l<n && l<w+2; l++) { unsigned long same = 0, pairs = 0;
+      for (unsigned long s=0; s<cycle/n*1; s++) for (unsigned i=0; i+l<n; i++) { unsigned long t = s*n + i; pairs++; if (t / w == (t + l) / w) same++; }
+      double exact = pairs ? double(same)/pairs : 0; double reported = sq.get_crosscovariance(l)[0][0] / (l == 0 ? sq.get_covariance()[0][0] : 1.0);
+      if (l == 0) exact = 1.0;
+      worst = std::max (worst, std::fabs (exact - reported)); }
+    O.put (worst); };
+  // oracle (sample and hold across samples): the correlation between instance i of one sample and instance j of the next
+  OP("o.c07.squarelag") { unsigned w = A.n(); unsigned n = A.n(); unsigned slag = A.n(); epsic::mode base; base.set_Stokes (Stokes<double>(1,0,0,0));
+    scripted_mod* sm = new scripted_mod (&base, 1.0, 1.0); epsic::square_modulated_mode* sq = new epsic::square_modulated_mode (sm, w, n);
+    epsic::single smp (sq); smp.sample_size = n; double reported = smp.get_crosscovariance (slag)[0][0];
+    unsigned long cycle = (unsigned long) w * n; long double acc = 0; unsigned long cnt = 0;
+    for (unsigned long s=0; s<cycle/n; s++) { for (unsigned i=0;i<n;i++) for (unsigned j=0;j<n;j++) { unsigned long t1 = s*n + i, t2 = (s+slag)*n + j; if (t1 / w == t2 / w) acc += 1; } cnt++; }
+    long double exact = acc / cnt / ((long double)n*n);      // modulation variance 1, outer(S,S)[0][0] = 1
+    if (slag == 0) { long double fieldterm = 0.5L * 2.0L / n; exact += fieldterm; }   // (mu^2+var) C00 / n with C00 = 1/2
+    O.put ((double) fabsl (exact - reported)); };
+  // oracle (log-normal): mean and variance of the generated factors by Gauss-Hermite quadrature through the deviate source
+  OP("o.c07.lognormal") { double beta = A.d(); epsic::mode base; epsic::lognormal_mode ln (&base, beta); ln.set_normal (&g_bm);
+    static const double gx[16] = { 0.27348104613815245, 0.82295144914465589, 1.3802585391988808, 1.9517879909162540, 2.5462021578474814, 3.1769991619799560, 3.8694479048601227, 4.6887389393058184,
+      -0.27348104613815245, -0.82295144914465589, -1.3802585391988808, -1.9517879909162540, -2.5462021578474814, -3.1769991619799560, -3.8694479048601227, -4.6887389393058184 };
+    static const double gw[8] = { 5.0792947901661374e-1, 2.8064745852853368e-1, 8.3810041398985829e-2, 1.2880311535509974e-2, 9.3228400862418053e-4, 2.7118600925378815e-5, 2.3209808448652107e-7, 2.6548074740111822e-10 };
+    // nodes x_i, weights w_i for integral exp(-x^2) f(x); standard normal: g = sqrt(2) x, weight w/sqrt(pi)
+    long double m1 = 0, m2 = 0;
+    for (int i=0;i<16;i++) { float g = (float)(sqrt(2.0)*gx[i]); g_normal.push_back (g); double v = ln.modulation();
+      // compensate the rounding of the node to float: evaluate the weight at the float node through the density ratio
+      long double wgt = gw[i%8] / sqrtl (M_PIl) * expl (gx[i]*gx[i] - 0.5L*(long double)g*g) ;
+      m1 += wgt*v; m2 += wgt*(long double)v*v; }
+    long double var = m2 - m1*m1; long double rv = ln.get_mod_variance();
+    O.put ((double) fabsl (m1 - ln.get_mod_mean())); O.put ((double) (fabsl (var - rv) / std::max (rv, 1e-300L))); O.put (std::fabs (sqrt (ln.get_mod_variance()) - beta) / beta); };
+
   std::string line;
   while (std::getline (std::cin, line)) {
     A_ a; { std::istringstream is (line); std::string t; while (is >> t) a.tok.push_back (t); }
